@@ -14,3 +14,28 @@ pub use crate::generators::{BulletproofGens, BulletproofGensShare, PedersenGens}
 
 #[cfg(feature = "yoloproofs")]
 pub mod r1cs;
+
+/// Verification hooks (compiled only with `--cfg ark_bulletproofs_verif`).
+/// Re-exports of crate-private items for the external correspondence harness; adds no behaviour.
+#[cfg(ark_bulletproofs_verif)]
+pub mod verif_hooks {
+    pub use crate::inner_product_proof::{inner_product, InnerProductProof};
+    pub use crate::transcript::TranscriptProtocol;
+    pub use crate::util::exp_iter;
+
+    /// `InnerProductProof::verification_scalars` (crate-private) for the harness.
+    pub fn ipp_verification_scalars<G: ark_ec::AffineRepr>(
+        proof: &InnerProductProof<G>,
+        n: usize,
+        transcript: &mut merlin::Transcript,
+    ) -> Result<
+        (
+            ark_std::vec::Vec<G::ScalarField>,
+            ark_std::vec::Vec<G::ScalarField>,
+            ark_std::vec::Vec<G::ScalarField>,
+        ),
+        crate::ProofError,
+    > {
+        proof.verification_scalars(n, transcript)
+    }
+}
